@@ -295,14 +295,15 @@ std::string handle_inner(std::vector<std::string> const &t)
   if (t.empty())
     return "bad-op";
   std::string const &op = t[0];
-  if (op == "reset" && t.size() == 1)
+  if ((op == "reset" || op == "end") && t.size() == 1)
   {
+    // `end`: all destructors run, the ledger is reported; `reset`: the same silently (start of the next history)
     fresh();
-    std::string const r = "reset live=" + std::to_string(ledger().live.size()) + " alloc=" + (ledger().bad ? "BAD" : "ok");
+    std::string const r = "end live=" + std::to_string(ledger().live.size()) + " alloc=" + (ledger().bad ? "BAD" : "ok");
     ledger().live.clear(); // whatever leaked stays leaked for LeakSanitizer, the count starts afresh
     ledger().bad = false;
     construct_nulls();
-    return r;
+    return op == "end" ? r : "reset";
   }
   if (op == "readchars" && t.size() == 3)
   {
@@ -713,6 +714,9 @@ std::string handle_inner(std::vector<std::string> const &t)
 
 std::string handle(std::vector<std::string> const &t)
 {
+  // a UBSan death (unlike an ASan one) does not run vh's death callback: make the lines produced so far visible
+  // before every operation so that the runner attributes a death to the operation that caused it
+  std::fflush(stdout);
   try
   {
     return handle_inner(t);
